@@ -49,7 +49,7 @@ class _Pass:
         self.trees = trees
         self.count = 0
 
-    def _function(self, fn, cls, mod_tables, cls_tables, used: set):
+    def _function(self, fn, cls, mod_tables, cls_tables, used: set, cls_funcs=frozenset(), mod_funcs=frozenset()):
         # locals bound exactly once (K must be one of them)
         stores: dict[str, int] = {}
         for x in ast.walk(fn):
@@ -61,19 +61,31 @@ class _Pass:
             """-> (rows, is_class_table, table key) for `<table>.get(K)` else None"""
             if not (isinstance(e, ast.Call) and isinstance(e.func, ast.Attribute) and e.func.attr == "get" and not e.keywords and 1 <= len(e.args) <= 2):
                 return None
+            dflt = None
             if len(e.args) == 2 and not (isinstance(e.args[1], ast.Constant) and e.args[1].value is None):
-                return None
+                # a default handler: `<Class>.f` / `f` of the class body for a class table, a module function for a module table
+                d = e.args[1]
+                if isinstance(d, ast.Attribute) and isinstance(d.value, ast.Name) and cls is not None and d.value.id == cls and d.attr in cls_funcs:
+                    dflt = ("cls", d.attr)
+                elif isinstance(d, ast.Name) and d.id in mod_funcs and stores.get(d.id, 0) == 0:
+                    dflt = ("mod", d.id)
+                else:
+                    return None
             if any(isinstance(y, (ast.Yield, ast.YieldFrom, ast.Await, ast.NamedExpr, ast.Lambda)) for y in ast.walk(e.args[0])):
                 return None
             t = e.func.value
             if isinstance(t, ast.Name) and t.id in mod_tables and stores.get(t.id, 0) == 0:
-                return mod_tables[t.id], False, ("mod", t.id)
+                if dflt is not None and dflt[0] != "mod":
+                    return None
+                return mod_tables[t.id], False, ("mod", t.id), (dflt[1] if dflt else None)
             if isinstance(t, ast.Attribute) and cls is not None and t.attr in cls_tables:
                 b = t.value
                 ok = (isinstance(b, ast.Name) and b.id in ("self", "cls", cls)) or (
                     isinstance(b, ast.Call) and isinstance(b.func, ast.Name) and b.func.id == "type" and len(b.args) == 1 and isinstance(b.args[0], ast.Name) and b.args[0].id == "self")
                 if ok:
-                    return cls_tables[t.attr], True, ("cls", cls, t.attr)
+                    if dflt is not None and dflt[0] != "cls":
+                        return None
+                    return cls_tables[t.attr], True, ("cls", cls, t.attr), (dflt[1] if dflt else None)
             return None
 
         # candidates: H = <table>.get(K)
@@ -123,8 +135,11 @@ class _Pass:
 
         repl: dict[int, ast.stmt] = {}
         pre: dict[int, ast.stmt] = {}
-        for h, (asg, (rows, is_cls, tkey)) in cands.items():
+        for h, (asg, (rows, is_cls, tkey, dflt)) in cands.items():
             self.count += 1
+            if dflt is not None:
+                # `.get(K, default)`: a last row that every other key takes (a key object of its own: it equals no constant)
+                rows = list(rows)
             used.add(tkey)
             # the key is evaluated once, where the look-up stood
             kname = f"_disp{self.count}_key"
@@ -133,7 +148,7 @@ class _Pass:
             pre[id(asg)] = keep
             repl[id(asg)] = chain(kname, rows,
                                   lambda key, fname, h=h: [ast.Assign(targets=[ast.Name(id=h, ctx=ast.Store())], value=ast.Constant(value=f"<handler {fname}>"), type_comment=None)],
-                                  [ast.Assign(targets=[ast.Name(id=h, ctx=ast.Store())], value=ast.Constant(value=None), type_comment=None)], asg)
+                                  [ast.Assign(targets=[ast.Name(id=h, ctx=ast.Store())], value=ast.Constant(value=(None if dflt is None else f"<handler {dflt}>")), type_comment=None)], asg)
             for st, c in call_stmts[h]:
                 def body(key, fname, st=st, c=c, is_cls=is_cls):
                     if is_cls:
@@ -148,7 +163,10 @@ class _Pass:
 
                 # the calls are chosen by the marker H holds (not by K again): the graph's flag analysis then knows that the
                 # entry called is the entry looked up, and that the fall-back call of H itself is reached only with H is None
-                repl[id(st)] = chain(h, [(ast.Constant(value=f"<handler {fname}>"), fname) for _key, fname in rows], body, [st], st)
+                crow = [(ast.Constant(value=f"<handler {fname}>"), fname) for _key, fname in rows]
+                if dflt is not None and dflt not in [fn_ for _k, fn_ in rows]:
+                    crow.append((ast.Constant(value=f"<handler {dflt}>"), dflt))
+                repl[id(st)] = chain(h, crow, body, [st], st)
 
         def rewrite(stmts: list) -> list:
             out = []
@@ -178,7 +196,7 @@ class _Pass:
             used: set = set()
             for st in tree.body:
                 if isinstance(st, (ast.FunctionDef, ast.AsyncFunctionDef)) and mod_tables:
-                    self._function(st, None, mod_tables, {}, used)
+                    self._function(st, None, mod_tables, {}, used, frozenset(), frozenset(mod_funcs))
                 elif isinstance(st, ast.ClassDef):
                     meths = {x.name for x in st.body if isinstance(x, (ast.FunctionDef, ast.AsyncFunctionDef))}
                     cls_tables = {}
@@ -192,7 +210,7 @@ class _Pass:
                         continue
                     for x in st.body:
                         if isinstance(x, (ast.FunctionDef, ast.AsyncFunctionDef)):
-                            self._function(x, st.name, mod_tables, cls_tables, used)
+                            self._function(x, st.name, mod_tables, cls_tables, used, frozenset(meths), frozenset(mod_funcs))
                     # a class table whose every mention was rewritten is gone
                     for name in list(cls_tables):
                         if ("cls", st.name, name) in used and not any(
